@@ -1052,7 +1052,8 @@ package server
 //@ func (*AofFile).ReadLock
 //@   requires self != nil && lock != nil && len(lock.buf) == 64
 //@   ensures C08.record.whole: implies(isnil(result), ghost.consumed[ref(self.rbuf)] == old(ghost.consumed)[ref(self.rbuf)] + lockLen + 2 && lockLen + 2 <= 64)
-//@   ensures C08.record.torn-tail: implies(!isnil(result) && old(self.file) != nil && ghost.consumed[ref(self.rbuf)] - old(ghost.consumed)[ref(self.rbuf)] < min(64, lock.buf[0] + lock.buf[1]*256 + 2), calls(New) == 0)
+//@   loop#1 invariant 0 <= n && n <= 64 && len(buf) == 64 && self.rbuf == old(self.rbuf) && lock.buf == old(lock.buf) && ghost.consumed[ref(self.rbuf)] == old(ghost.consumed)[ref(self.rbuf)] + n && calls(New) == 0 && old(self.file) != nil
+//@   ensures C08.record.torn-tail: implies(!isnil(result) && old(self.file) != nil && len(old(lock.buf)) >= 64 && ghost.consumed[ref(self.rbuf)] - old(ghost.consumed)[ref(self.rbuf)] >= 1 && ghost.consumed[ref(self.rbuf)] - old(ghost.consumed)[ref(self.rbuf)] < min(64, lockLen + 2), calls(New) == 0)
 //@   ensures lock.buf == old(lock.buf) && self.rbuf == old(self.rbuf)
 //@   ghost recordNo[ref(self)] = ghost.recordNo[ref(self)] + 1
 //@   modifies AofFile.size@self, E_byte
